@@ -378,6 +378,8 @@ class Run:
         }
         # evidence under /verif describes /repo itself; runs against another tree (revert/seeded self-tests) write elsewhere
         evdir = os.path.join(VERIF, "evidence") if REPO == "/repo" else os.path.join(tempfile.gettempdir(), "verif-evidence-other-tree")
+        if not self.prop.startswith("C"):
+            evdir = os.path.join(VERIF, "evidence_extra")          # checks beyond the listed properties (X01 ...)
         os.makedirs(evdir, exist_ok=True)
         with open(os.path.join(evdir, self.prop + ".json"), "w") as f:
             json.dump(ev, f, indent=1)
